@@ -119,3 +119,65 @@ def run(ctx: Ctx):
                               sample={"site": show(o.site.ty), "alt": show(o.alt), "leaf": o.leaf})
     ctx.floor("open-enum dispatch outcomes", n_open_sites, 10)
     ctx.extra["disagreements_checked"] = ctx.obligations
+
+
+def _enum_class_hooks(ctx: Ctx):
+    """Closedness rests on axiom A1: an enum position is structured by E(value).  A structure hook registered
+    for an enum class replaces that: fold it (E5) on non-member candidates derived from the members (case
+    variants, stringified / shifted integers); an accepted non-member is a violation, an unfoldable hook leaves the
+    clause undecided."""
+    import ast as _ast
+    from ..common import AnalysisError
+    from ..microeval import Interp, Record, ClassRef, Raised
+    im = _imgbase.image(ctx)
+    t, mm, h = im.types, im.mm, im.hooks
+    n = 0
+    for key, reg in h.class_hooks().items():
+        if key[0] != "enum" or key[1] not in mm.enums or mm.enum_open(key[1]):
+            continue
+        n += 1
+        c = t.classes[key[1]]
+        values = [v for _, v in c.members]
+        members = [Record(c.name, {"value": v, "name": nm}) for nm, v in c.members]
+
+        def ctor(v, _members=members, _values=values):
+            for m_, val in zip(_members, _values):
+                if val == v and type(val) is type(v):
+                    return m_
+            raise Raised("ValueError", (f"{v!r} is not a valid {c.name}",))
+        cref = ClassRef(c.name, "enum", ["Enum"], call=ctor, iter=lambda _m=members: _m)
+        cands = set()
+        for v in values:
+            if isinstance(v, str):
+                cands |= {v.upper(), v.capitalize(), v.lower(), v + " ", " " + v, v.swapcase(), v.title()}
+            else:
+                cands |= {str(v), v + 1000, -v - 1, float(v) + 0.5}
+        cands |= {"__no_such_member__", "", 987654}
+        cands = [x for x in cands if not any(x == v and type(x) is type(v) for v in values)]
+        if not isinstance(reg.hook, (_ast.FunctionDef, _ast.Lambda)):
+            raise AnalysisError(f"{h.rel}: hook for {c.name} is not a function")
+        it = Interp(name=h.rel)
+        reported = False
+        for cand in sorted(cands, key=repr):
+            if reported:
+                break          # one witness per enumeration is enough
+            try:
+                r = it.call(reg.hook, [cand, cref], closure_env={reg.conv_name: Record("Converter", {})})
+                accepted = True
+            except Raised:
+                accepted = False
+            reported = accepted
+            ctx.check(not accepted, "closed-enum-rejects-nonmembers", f"hook={reg.hook_name} enum={c.name} value={cand!r}",
+                      f"the structure hook {reg.hook_name} registered for the closed enumeration {c.name} accepts the "
+                      f"non-member {cand!r} (as {getattr(r, 'fields', r) if accepted else None})", h.rel, reg.lineno,
+                      sample={"enum": c.name, "value": repr(cand)})
+    if n == 0:
+        ctx.ok("closed-enum-rejects-nonmembers", {"class_keyed_hooks_for_closed_enums": 0, "argument": "axiom A1: E(value)"})
+
+
+_run_c13 = run
+
+
+def run(ctx: Ctx):  # noqa: F811
+    _run_c13(ctx)
+    _enum_class_hooks(ctx)
